@@ -1078,50 +1078,86 @@ def _check_encoding_table(ctx, setup, field):
     cfg = ctx.cfg(setup)
     defs = U.local_defs(fn)
     stores = [(st, v) for st, f, v, aug in _self_stores(fn) if f == field]
-    seen_keys = {}
     enc_exprs = []
-    for st, value in stores:
-        pos = []
-        child = st
-        for a in U.ancestors(st, pm):
-            if isinstance(a, ast.If):
-                if any(s is child for s in a.body):
-                    pos.append(a.test)
-            elif not isinstance(a, (ast.FunctionDef, ast.AsyncFunctionDef)):
-                pos = None
-                break
-            child = a
-        if isinstance(value, ast.Constant) and value.value is None:
-            target = None
-        elif isinstance(value, ast.Call) and repo.resolve_class_expr(setup.module, value.func) is not None:
-            target = repo.resolve_class_expr(setup.module, value.func).qual
+    # Decision table: which decoder is installed for each Content-Encoding token.  The set-up is interpreted
+    # abstractly; for a token t the leaf consistent with "value == t" is the one whose order/membership atoms on
+    # string constants agree with t (so if/elif order, inverted ifs and `in (...)` spellings do not matter).
+    from ..dtable import Interp as _Interp, Unsupported as _Unsupported
+    try:
+        leaves = _Interp(repo, setup, rename=False).leaves()
+    except _Unsupported as e:
+        ck.bad('C19-D2', where, 'Content-Encoding table', 'the decoder set-up is outside the decision-table language: %s' % e, setup.loc())
+        leaves = []
+    consts = set()
+    for lf in leaves:
+        for k in lf.val:
+            if k[0] == 'ord':
+                for side in k[1:]:
+                    if side[:1] in ('"', "'"):
+                        consts.add(ast.literal_eval(side))
+            if k[0] == 'in' and k[2][:1] in '([{':
+                try:
+                    consts |= set(ast.literal_eval(k[2]))
+                except Exception:
+                    pass
+    tokens = sorted({t for t in consts if isinstance(t, str)} | set(ENCODINGS) | {'identity-or-anything-else'})
+
+    def consistent(val, tok):
+        for k, v in val.items():
+            if k[0] == 'ord' and (k[1][:1] in ('"', "'")) != (k[2][:1] in ('"', "'")):
+                c_first = k[1][:1] in ('"', "'")
+                c = ast.literal_eval(k[1] if c_first else k[2])
+                rel = 'eq' if c == tok else ('lt' if (c < tok) == c_first else 'gt')
+                if v != rel:
+                    return False
+            elif k[0] == 'in' and k[2][:1] in '([{':
+                try:
+                    members = set(ast.literal_eval(k[2]))
+                except Exception:
+                    continue
+                if v != (tok in members):
+                    return False
+        return True
+    for tok in tokens:
+        want = ENCODINGS.get(tok)
+        got = set()
+        for lf in leaves:
+            if not consistent(lf.val, tok):
+                continue
+            val_txt = None
+            for e in lf.effects:
+                if e.startswith('self.%s = ' % field):
+                    val_txt = e.split(' = ', 1)[1]
+            if val_txt is None:
+                got.add('<unset>')
+            elif val_txt == 'None':
+                got.add(None)
+            else:
+                try:
+                    call = ast.parse(val_txt, mode='eval').body
+                    ci = repo.resolve_class_expr(setup.module, call.func) if isinstance(call, ast.Call) else None
+                except SyntaxError:
+                    ci = None
+                got.add(ci.qual if ci is not None else val_txt)
+        ok = got == {want} or (tok in ENCODINGS and tok not in REQUIRED_ENCODINGS and got == {None})
+        label = 'Content-Encoding %r -> %s' % (tok, want.split(':')[1] if want else 'no decoder')
+        if tok in REQUIRED_ENCODINGS and got == {None}:
+            ck.bad('C19-D2', where, label, 'no arm selects a decoder for Content-Encoding %r: such bodies are stored undecoded' % tok, setup.loc())
         else:
-            ck.bad('C19-D2', where, norm_text(st), 'the decoder field is set to something that is neither a decoder nor None', setup.loc(st))
-            continue
-        if pos is None or len(pos) > 1:
-            ck.bad('C19-D2', where, norm_text(st), 'decoder selected under a condition the rule does not recognise '
-                   '(expected `encoding == <token>` arms)', setup.loc(st))
-            continue
-        if not pos:
-            ck.expect(target is None, 'C19-D2', where, 'otherwise: ' + norm_text(st),
-                      'bodies with any other Content-Encoding (or none) get a decoder instead of identity', setup.loc(st))
-            continue
-        keys, enc = _enc_keys(pos[0])
-        if keys is None:
-            ck.bad('C19-D2', where, '%s: %s' % (norm_text(pos[0]), norm_text(st)), 'decoder selected under a condition the rule '
-                   'does not recognise (expected `encoding == <token>` or `encoding in (<tokens>)`)', setup.loc(st))
-            continue
-        enc_exprs.append(enc)
-        for k in keys:
-            want = ENCODINGS.get(k)
-            seen_keys[k] = target
-            ck.expect(want is not None and target == want, 'C19-D2', where, 'Content-Encoding %r -> %s' % (k, target and target.split(':')[1]),
-                      'Content-Encoding %r selects %s (expected %s): the body is decoded with the wrong format' % (
-                          k, target, want or 'no decoder'), setup.loc(st))
-    for k in REQUIRED_ENCODINGS:
-        if k not in seen_keys:
-            ck.bad('C19-D2', where, 'Content-Encoding %r -> %s' % (k, ENCODINGS[k].split(':')[1]),
-                   'no arm selects a decoder for Content-Encoding %r: such bodies are stored undecoded' % k, setup.loc())
+            ck.expect(ok, 'C19-D2', where, label,
+                      'Content-Encoding %r installs %s (expected %s): the body is decoded with the wrong format / a decoder is applied to '
+                      'an identity body' % (tok, sorted(str(x) for x in got), want or 'no decoder'), setup.loc())
+    # the expression compared against the tokens
+    for n in walk_no_nested(fn):
+        if isinstance(n, ast.Compare):
+            keys, enc = _enc_keys(n)
+            if keys is None and len(n.ops) == 1 and isinstance(n.ops[0], (ast.NotEq, ast.NotIn)):
+                n2 = ast.Compare(left=n.left, ops=[ast.Eq() if isinstance(n.ops[0], ast.NotEq) else ast.In()], comparators=n.comparators)
+                keys, enc = _enc_keys(n2)
+            if keys is not None:
+                enc_exprs.append(enc)
+    if not enc_exprs:
+        ck.bad('C19-D2', where, 'comparison of the Content-Encoding value', 'the set-up does not compare the Content-Encoding value with coding names', setup.loc())
     # every call (re)sets the field: a decoder of an earlier response is never reused
     is_store = lambda m: m.kind == 'stmt' and any(m.stmt is st for st, v in stores)
     p = F.escapes_without(cfg, cfg.entry, is_store)
